@@ -37,6 +37,7 @@ INCRATE_FILES = {
     "engine.rs": ("skrifa_in", "outline::glyf::hint::engine::verif_harness"),
     "engine_ops.rs": ("skrifa_in", "outline::glyf::hint::engine::verif_harness"),
     "decycler.rs": ("skrifa_in", "decycler::verif_harness"),
+    "color.rs": ("skrifa_in", "color::verif_harness"),
     "glyf_memory.rs": ("skrifa_in", "outline::glyf::memory::verif_harness"),
     "path.rs": ("skrifa_in", "outline::path::verif_harness"),
     "write_hook.rs": ("write_in", "write::verif_harness"),
@@ -78,7 +79,7 @@ def _scan_file(path):
                     k, v = am.group(1), (am.group(2) or "").strip()
                     if k in ("bound", "assume"):
                         ann[k].insert(0, v)
-                    elif k in ("tier", "timeout", "c20", "c01", "c02", "mem", "expect", "vacuity-ok"):
+                    elif k in ("tier", "timeout", "c20", "c01", "c02", "mem", "expect", "vacuity-ok", "cbmc"):
                         ann[k] = v or True
             j -= 1
         ann["submod"] = sub
